@@ -1,9 +1,11 @@
 #!/bin/sh
 # Regenerates harness/go.mod from /repo/rolling-shutter/go.mod (same require/replace
 # blocks) so that -mod=mod resolves exactly the versions in the module cache.
+# Files are only replaced (atomically) when their content changes: several checks may run at once.
 set -e
 H=/verif/harness
 R=/repo/rolling-shutter
+T=$(mktemp "$H/.gomod.XXXXXX")
 {
   echo "module verif/harness"
   echo
@@ -11,6 +13,8 @@ R=/repo/rolling-shutter
   echo
   echo "require github.com/shutter-network/rolling-shutter/rolling-shutter v0.0.0"
   echo "replace github.com/shutter-network/rolling-shutter/rolling-shutter => $R"
-} > $H/go.mod.new
-if ! cmp -s $H/go.mod.new $H/go.mod 2>/dev/null; then mv $H/go.mod.new $H/go.mod; else rm $H/go.mod.new; fi
-cp $R/go.sum $H/go.sum
+} > "$T"
+if ! cmp -s "$T" $H/go.mod 2>/dev/null; then mv "$T" $H/go.mod; else rm -f "$T"; fi
+if ! cmp -s $R/go.sum $H/go.sum 2>/dev/null; then
+  T2=$(mktemp "$H/.gosum.XXXXXX"); cp $R/go.sum "$T2"; mv "$T2" $H/go.sum
+fi
